@@ -33,6 +33,9 @@ func (w *Worker) mkErr(st *State, msg StrV) *Union {
 	return mkUnion(synthErrType, ErrV{Msg: msg, id: st.nobj})
 }
 
+// io.EOF is one object: the reader stubs return it, and the code may compare against it.
+func eofUnion() *Union { return mkUnion(synthErrType, ErrV{Msg: strLit("EOF"), id: -1}) }
+
 func atom(t Term) StrV { return StrV{[]Seg{{K: SegAtom, T: t}}} }
 
 func (w *Worker) loadExtern(st *State, e Extern, t types.Type) Value {
@@ -45,6 +48,8 @@ func (w *Worker) loadExtern(st *State, e Extern, t types.Type) Value {
 		return Extern{"os.Stdin"}
 	case "&os.Args":
 		return w.osArgs(st)
+	case "&io.EOF":
+		return eofUnion()
 	}
 	panic(engineErr("load of foreign global " + e.name))
 }
